@@ -71,6 +71,121 @@ def gen_table(rng, valid=True):
     return t
 
 
+def rotate(content, rng):
+    """a DIFFERENT valid file of exactly the same byte length: one ASCII letter of one value changed
+    (a secret rotated to one of equal length); None when the content offers no such position"""
+    try:
+        doc = json.loads(content.decode('utf-8'))
+    except Exception:
+        return None
+    if not isinstance(doc, dict):
+        return None
+    cands = []
+    for name, e in doc.items():
+        if isinstance(e, dict):
+            for key in ('secret', 'owner'):
+                v = e.get(key)
+                if isinstance(v, str) and v and v[0].isascii() and v[0].isalpha():
+                    cands.append((name, key))
+            for key in ('pubchans', 'subchans'):
+                v = e.get(key)
+                if isinstance(v, list):
+                    for i, c in enumerate(v):
+                        if isinstance(c, str) and c and c[0].isascii() and c[0].isalpha():
+                            cands.append((name, key, i))
+    if not cands:
+        return None
+    c = rng.choice(cands)
+    flip = lambda ch: 'q' if ch != 'q' else 'r'
+    if len(c) == 2:
+        v = doc[c[0]][c[1]]
+        doc[c[0]][c[1]] = flip(v[0]) + v[1:]
+    else:
+        v = doc[c[0]][c[1]][c[2]]
+        doc[c[0]][c[1]][c[2]] = flip(v[0]) + v[1:]
+    out = json.dumps(doc, ensure_ascii=(b'\\u' in content or content.isascii())).encode('utf-8')
+    return out if len(out) == len(content) and out != content else None
+
+
+def execute(a, path, steps, res, drv, rng=None):
+    """write each step's content (None = delete the file), give the file the step's mtime (recorded on the first
+    run, re-applied on replay), call the real load() and judge.  `steps` entries: [kind, content, mtime_ns]; a
+    mtime of None is resolved here (environment choice) and written back so that the script replays exactly"""
+    seen = set()
+    shadow = {}
+    last_mtime = None
+    last_valid = None       # (mtime_ns, size) of the last file that was valid
+    done = []
+    for step in steps:
+        kind, content = step[0], step[1]
+        mt = step[2] if len(step) > 2 else None
+        res.evaluations += 1
+        if content is None:
+            if os.path.exists(path):
+                os.unlink(path)
+        else:
+            with open(path, 'wb') as f:
+                f.write(content)
+            # file metadata is part of the environment: restored backups, `cp -p`, `rsync -t`, clock steps
+            if mt is None and rng is not None:
+                r_ = rng.random()
+                if kind == 'rotated' and last_valid is not None:
+                    mt = last_valid[0]
+                elif r_ < 0.25:
+                    mt = (1000000000 + rng.randint(0, 10 ** 6)) * 10 ** 9
+                elif r_ < 0.35 and last_mtime is not None:
+                    mt = last_mtime
+            if mt is not None:
+                os.utime(path, ns=(mt, mt))
+            mt = last_mtime = os.stat(path).st_mtime_ns
+        done.append([kind, None if content is None else content.hex(), mt])
+        script = {'steps': done + [[k_, (c if c is None else c.hex()), None] for k_, c, *_ in steps[len(done):]]}
+        # what json.load produces (the model's input)
+        try:
+            with open(path, 'r') as fp:
+                parsed = json.load(fp)
+            doc = ser(parsed)
+            ok = True
+        except Exception:
+            doc, ok, parsed = 'ERR', False, None
+        try:
+            a.load()
+        except Exception as e:
+            res.violation('C18', 'load-raises', 'load() raised %r on %s content' % (e, kind), script)
+            break
+        # spec oracle: valid iff dict of dicts with the four keys and list-typed chans
+        valid = ok and isinstance(parsed, dict) and all(
+            isinstance(v, dict) and all(x in v for x in ('owner', 'secret', 'pubchans', 'subchans')) and
+            isinstance(v['pubchans'], list) and isinstance(v['subchans'], list) for v in parsed.values())
+        if valid:
+            shadow = parsed
+            seen |= set(parsed)
+            last_valid = (mt, len(content))
+        res.note('step.' + kind + ('.valid' if valid else '.kept'))
+        for i in sorted(seen | {'nobody'}):
+            got = a.get_authkey(i)
+            want = shadow.get(i)
+            want_rec = None if not want else {'secret': want['secret'], 'ident': i, 'pubchans': want['pubchans'], 'subchans': want['subchans'], 'owner': want['owner']}
+            if got != want_rec:
+                res.violation('C18', 'all-or-nothing', 'after a %s file, get_authkey(%r) = %r; the last valid file says %r' % (kind, i, got, want_rec), script)
+        if drv is not None:
+            mo = drv.ask('j.load ' + doc)
+            if mo != 'ok %d' % len(a.db):
+                res.disagree('load (%s)' % kind, script, 'ok %d' % len(a.db), mo)
+                break
+            bad = False
+            for i in sorted(seen | {'nobody'}):
+                got = a.get_authkey(i)
+                im = 'none' if not got else 'rec %s %s %s %s' % (ser(got['secret']), ser(got['pubchans']), ser(got['subchans']), ser(got['owner']))
+                mo = drv.ask('j.get ' + hexin(i.encode('utf-8')))
+                if mo != im:
+                    res.disagree('get_authkey(%r) after %s' % (i, kind), script, im, mo)
+                    bad = True
+                    break
+            if bad:
+                break
+
+
 def run(tier, seed, drv):
     res = Result('jsonreload')
     res.model_used = drv is not None
@@ -84,20 +199,31 @@ def run(tier, seed, drv):
             a = JS.Authenticator(path)
             if drv is not None:
                 drv.ask('j.reset')
-            seen = set()
-            shadow = {}
-            last_mtime = None
             steps = []
             nsteps = rng.randint(3, 10)
             base = json.dumps(gen_table(rng), ensure_ascii=rng.random() < 0.5)
+            last_valid_content = None
             for st in range(nsteps):
-                kind = rng.choice(['valid', 'valid', 'invalid-entry', 'truncated', 'garbage', 'bad-utf8', 'missing', 'empty', 'whitespace'])
+                kind = rng.choice(['valid', 'valid', 'rotated', 'invalid-entry', 'truncated', 'garbage', 'bad-utf8', 'missing', 'empty', 'whitespace'])
                 content = None
+                if kind == 'rotated':
+                    content = rotate(last_valid_content, rng) if last_valid_content else None
+                    if content is None:
+                        kind = 'valid'
+                    else:
+                        base = content.decode('utf-8')
+                        last_valid_content = content
                 if kind == 'valid':
                     base = json.dumps(gen_table(rng), ensure_ascii=rng.random() < 0.5)
                     content = base.encode('utf-8')
+                    last_valid_content = content
                 elif kind == 'invalid-entry':
                     content = json.dumps(gen_table(rng, valid=False)).encode('utf-8')
+                    try:
+                        # `extra-ok` mutations are still valid tables
+                        last_valid_content = None
+                    except Exception:
+                        pass
                 elif kind == 'truncated':
                     b = base.encode('utf-8')
                     content = b[:rng.randint(0, max(0, len(b) - 1))]
@@ -109,84 +235,44 @@ def run(tier, seed, drv):
                     content = b''
                 elif kind == 'whitespace':
                     content = b'  \n'
-                steps.append((kind, content))
+                steps.append([kind, content, None])
             # exhaustive truncation sweep once per run of the engine
             if k == 0:
                 b = json.dumps({'alice': entry(random.Random(1)), 'bob': entry(random.Random(2))}).encode()
-                steps = [('valid', b)] + [('truncated', b[:i]) for i in range(len(b))] + [('valid', b)]
+                steps = [['valid', b, None]] + [['truncated', b[:i], None] for i in range(len(b))] + [['valid', b, None]]
                 res.note('truncation-sweep-prefixes', len(b))
-            for kind, content in steps:
-                res.evaluations += 1
-                if content is None:
-                    if os.path.exists(path):
-                        os.unlink(path)
-                else:
-                    with open(path, 'wb') as f:
-                        f.write(content)
-                    # file metadata is part of the environment: restored backups, `cp -p`, clock steps
-                    r_ = rng.random()
-                    if r_ < 0.25:
-                        t_ = 1000000000 + rng.randint(0, 10 ** 6)
-                        os.utime(path, (t_, t_))
-                    elif r_ < 0.35 and last_mtime is not None:
-                        os.utime(path, ns=(last_mtime, last_mtime))
-                    last_mtime = os.stat(path).st_mtime_ns
-                # what json.load produces (the model's input)
-                try:
-                    with open(path, 'r') as fp:
-                        parsed = json.load(fp)
-                    doc = ser(parsed)
-                    ok = True
-                except Exception:
-                    doc, ok, parsed = 'ERR', False, None
-                before = {i: a.get_authkey(i) for i in seen}
-                try:
-                    a.load()
-                except Exception as e:
-                    res.violation('C18', 'load-raises', 'load() raised %r on %s content' % (e, kind), {'steps': [(k_, (c or b'').hex()) for k_, c in steps]})
-                    break
-                # spec oracle: valid iff dict of dicts with the four keys and list-typed chans
-                valid = ok and isinstance(parsed, dict) and all(
-                    isinstance(v, dict) and all(x in v for x in ('owner', 'secret', 'pubchans', 'subchans')) and
-                    isinstance(v['pubchans'], list) and isinstance(v['subchans'], list) for v in parsed.values())
-                if valid:
-                    shadow = parsed
-                    seen |= set(parsed)
-                res.note('step.' + kind + ('.valid' if valid else '.kept'))
-                script = {'steps': [(k_, (c if c is None else c.hex())) for k_, c in steps]}
-                for i in sorted(seen | {'nobody'}):
-                    got = a.get_authkey(i)
-                    want = shadow.get(i)
-                    want_rec = None if not want else {'secret': want['secret'], 'ident': i, 'pubchans': want['pubchans'], 'subchans': want['subchans'], 'owner': want['owner']}
-                    if got != want_rec:
-                        res.violation('C18', 'all-or-nothing', 'after a %s file, get_authkey(%r) = %r; the last valid file says %r' % (kind, i, got, want_rec), script)
-                    if drv is None:
-                        continue
-                if drv is not None:
-                    mo = drv.ask('j.load ' + doc)
-                    if mo != 'ok %d' % len(a.db):
-                        res.disagree('load (%s)' % kind, script, 'ok %d' % len(a.db), mo)
-                        break
-                    for i in sorted(seen | {'nobody'}):
-                        got = a.get_authkey(i)
-                        im = 'none' if not got else 'rec %s %s %s %s' % (ser(got['secret']), ser(got['pubchans']), ser(got['subchans']), ser(got['owner']))
-                        mo = drv.ask('j.get ' + hexin(i.encode('utf-8')))
-                        if mo != im:
-                            res.disagree('get_authkey(%r) after %s' % (i, kind), script, im, mo)
-                            break
-            res.nontriv([[k_ for k_, _ in steps], base[:80]])
-            res.sample({'steps': [(k_, (c or b'')[:60].decode('latin1')) for k_, c in steps[:6]]}, limit=3)
+            # a secret rotated to one of equal length, in a file restored with its old timestamp, with and
+            # without a half-written file in between
+            if k == 1:
+                b = json.dumps({'alice': {'owner': 'o', 'secret': 'secret-one', 'pubchans': ['c1'], 'subchans': ['c1']}}).encode()
+                b2 = b.replace(b'secret-one', b'secret-two')
+                steps = [['valid', b, None], ['rotated', b2, None], ['truncated', b[:20], None], ['rotated', b, None], ['rotated', b2, None]]
+            execute(a, path, steps, res, drv, rng)
+            res.nontriv([[s_[0] for s_ in steps], base[:80]])
+            res.sample({'steps': [(s_[0], (s_[1] or b'')[:60].decode('latin1')) for s_ in steps[:6]]}, limit=3)
     finally:
         import shutil
         shutil.rmtree(tmp, ignore_errors=True)
     res.assumptions += [
         "json.load (Python's parser, also the one the code uses) is an input of the model: the model receives the parsed value or ERR",
         'which file-system events trigger load() (inotify) is not modelled; a half-written file is covered as a content, not as a schedule',
+        'file metadata is an environment choice: explicit, equal and restored mtimes, equal sizes (recorded in the script, re-applied on replay)',
     ]
     return res
 
 
 def replay(script, drv):
     res = Result('jsonreload')
-    res.note('replay-not-implemented')
+    tmp = tempfile.mkdtemp(prefix='verif_json_')
+    path = os.path.join(tmp, 'users.json')
+    try:
+        open(path, 'w').write('{}')
+        a = JS.Authenticator(path)
+        if drv is not None:
+            drv.ask('j.reset')
+        steps = [[s_[0], None if s_[1] is None else bytes.fromhex(s_[1]), (s_[2] if len(s_) > 2 else None)] for s_ in script['steps']]
+        execute(a, path, steps, res, drv, None)
+    finally:
+        import shutil
+        shutil.rmtree(tmp, ignore_errors=True)
     return res
